@@ -35,7 +35,9 @@ Creds == IF AuthType = "psk" THEN {"goodPSK", "wrongPSK"}
          ELSE {"good", "otherCA", "expired", "chainAkeyB"}
               \cup (IF Honest = "s" THEN {"none"} ELSE {"wrongName"})   \* a client certificate carries no name to check
 Devs  == IF AuthType = "psk" THEN {"none"}
-         ELSE {"none", "omitCert", "emptyCert", "omitProof", "corruptProof", "omitCertAndProof"}
+         ELSE {"none", "omitCert", "emptyCert", "omitProof", "corruptProof", "omitCertAndProof",
+               "forgedProof",     \* a proof NOT made with the leaf's private key that exploits a scheme / key-type confusion
+               "mixedChain"}      \* own certificate first (its key signs), the victim's valid chain appended behind it
 
 VARIABLES cred, dev,      \* what the rogue is and does (chosen once)
           stage,          \* "start" | "cert" | "proof" | "fin" | "done"
@@ -53,8 +55,11 @@ CertContent  == IF ~SendsCertMsg THEN "none" ELSE IF dev = "emptyCert" THEN "emp
 \* a certificate answers a request with an empty Certificate message
 ClientSendsAnything == Honest = "s" => Policy # 0
 SendsProof == cred # "none" /\ dev \notin {"omitProof", "omitCertAndProof"}
-ChainOK == cred \in {"good", "chainAkeyB"}          \* chain, name and validity all fine
-ProofValid == SendsProof /\ dev # "corruptProof" /\ cred # "chainAkeyB" /\ CertContent = "chain"
+\* chain, name and validity all fine - judged on the FIRST certificate, the one whose key must sign
+ChainOK == cred \in {"good", "chainAkeyB"} /\ dev # "mixedChain"
+\* mixedChain: the rogue signs with the key of the first certificate, which is its own (the proof is valid for THAT leaf)
+ProofValid == /\ SendsProof /\ dev \notin {"corruptProof", "forgedProof"} /\ CertContent = "chain"
+              /\ (cred # "chainAkeyB" \/ dev = "mixedChain")
 KnowsPSK == cred = "goodPSK"
 
 Init ==
